@@ -179,6 +179,11 @@ def upload_post(prop, streaming):
                                reps[0].data['recv'].z == dt[0].data['temp'].z,
                                reps[0].data['args'][0].z == dt[0].data['destination'].z,
                                z3.BoolVal(('copy_all' if streaming else 'write_bytes') in kinds[:kinds.index('replace')])))
+                if ok and streaming:
+                    # ... and of a CLOSED one: everything written is flushed before the name becomes visible (a crash between the
+                    # rename and the close would otherwise leave an empty / short object under the final name)
+                    res.oblige(p, f'{prop}.local.upload_stream.temp_closed_before_it_is_renamed[{sig}]', z3.BoolVal(
+                        'close' in kinds[:kinds.index('replace')] and kinds.index('close') > kinds.index('copy_all')))
             else:
                 n_exc += 1
                 if dt:
